@@ -285,6 +285,69 @@ def build_trace(sched, ref):
     return lines, expect
 
 
+def seq_late_reply(rep, rng):
+    """a cancel / consume whose reply arrives only after the RPC time-out: the call fails, but when the reply does
+    come the client's list must follow it (the broker did cancel / does serve the consumer), and nothing may be left
+    in the reply tables to swallow it"""
+    import types
+    import amqpstorm
+    import amqpstorm.rpc as arpc
+    from amqpstorm.channel import Channel
+    from pamqp import specification as spec
+    conn = amqpstorm.Connection('localhost', 'guest', 'guest', lazy=True)
+    conn.set_state(3)
+    ch = Channel(1, conn, 1)
+    ch.set_state(3)
+    conn._channels[1] = ch
+    written = []
+    conn.write_frame = lambda cid, fr: written.append(fr.name)
+    now = [0.0]
+
+    def sleep(s):
+        now[0] += 0.5
+    saved = arpc.time
+    arpc.time = types.SimpleNamespace(time=lambda: now[0], sleep=sleep)
+    k = rng.randint(1, 3)
+    tags = ['lt%d' % i for i in range(k)]
+    for t in tags:
+        ch.add_consumer_tag(t)
+        ch._consumer_callbacks[t] = lambda m: None
+    victim = rng.choice(tags)
+    replay = {'kind': 'seq-late-reply', 'tags': tags, 'victim': victim}
+    try:
+        try:
+            ch.basic.cancel(victim)
+            outcome = 'returned'
+        except amqpstorm.AMQPChannelError:
+            outcome = 'timeout'
+        residue = (len(ch.rpc._request), len(ch.rpc._response))
+        ch.on_frame(spec.Basic.CancelOk(consumer_tag=victim))          # the broker's answer, late
+        left = sorted(ch.consumer_tags)
+        want = sorted(t for t in tags if t != victim)
+        if outcome != 'timeout':
+            rep.violation('C14/late-reply/no-timeout', 'cancel without a reply returned %s' % outcome, replay)
+        elif residue != (0, 0):
+            rep.violation('C14/late-reply/registration-survives-timeout', 'after the timed-out cancel the reply tables hold %r entries' % (residue,), replay)
+        elif left != want:
+            rep.violation('C14/late-reply/cancelok-ignored', 'the late CancelOk for %r left the client listing %r, the broker serves %r' % (victim, left, want), replay)
+        # consume whose ConsumeOk is late
+        new = 'late-new'
+        try:
+            ch.basic.consume(lambda m: None, 'q', consumer_tag=new)
+            outcome = 'returned'
+        except amqpstorm.AMQPChannelError:
+            outcome = 'timeout'
+        residue = (len(ch.rpc._request), len(ch.rpc._response))
+        ch.on_frame(spec.Basic.ConsumeOk(consumer_tag=new))
+        if outcome == 'timeout' and residue != (0, 0):
+            rep.violation('C14/late-reply/registration-survives-timeout', 'after the timed-out consume the reply tables hold %r entries' % (residue,), replay)
+        elif outcome == 'timeout' and new not in ch.consumer_tags:
+            rep.violation('C14/late-reply/consumeok-ignored', 'the broker confirmed consumer %r (late); the client lists %r' % (new, sorted(ch.consumer_tags)), replay)
+    finally:
+        arpc.time = saved
+    rep.case(('seq-late-reply', k, victim), True, sample=replay)
+
+
 def check(rep):
     import json
     rng = random.Random(common.seed() * 4201 + 14)
@@ -297,6 +360,8 @@ def check(rep):
         'the broker cancels only consumers whose consume() call has returned (see Props/C14 early_broker_cancel_loses_track)',
         'KeyError on a delivery that overtakes the callback binding is a recorded finding',
     ]
+    for _ in range(10 if not thorough else 100):
+        seq_late_reply(rep, rng)
     jobs = []
     for path in sorted((common.CORPUS / 'C14').glob('*.json')):
         d = json.loads(path.read_text())
